@@ -352,8 +352,12 @@ class Ctx:
 
     # ---- budgets
     def budget(self, quick, thorough):
-        if self.thorough or self.sentinels_changed:
+        if self.thorough:
             return thorough
+        if self.sentinels_changed:
+            # the code this property is anchored in changed since the baseline: look harder,
+            # but stay within what a per-change run can afford
+            return min(thorough, 3 * quick)
         return quick
 
     # ---- proof side
